@@ -325,7 +325,8 @@ def install_harvester(R):
         return mk_bool(z3.ForAll([q], z3.Implies(z3.Not(istmp(q)), z3.If(q == pth, z3.Or(same, isnew), same))))
     S["DataOldOrNew"] = data_old_or_new
 
-    R.add(FARM + "Harvester.save_full_ds", cls="Harvester", result="none", props=["C05", "C14"], prop_map={"crash.": ["C10"]},
+    R.add(FARM + "Harvester.save_full_ds", cls="Harvester", result="none", props=["C05", "C14"],
+          prop_map={"crash.": ["C10"], "saved_under_its_name": ["C05", "C14", "C12"]},
           types={"new_full_ds": "V"},
           requires=[("named", "implies(self.data_name is not None, is_str_value(self.data_name) and KnownEngine(EffEngine(self, engine)) and "
                               "not IsTmp(HarvestPath(self, engine)))"),
